@@ -129,10 +129,21 @@ class Ctx:
         }
 
 
-def run_cases(mod, ctx, only=None):
+OBSERVE_QUOTA = 25   # cases per monitor (per shard) executed under the branch-arm observer
+
+
+def run_cases(mod, ctx, only=None, observer=None):
     """Drive the generator of a property module through its monitors."""
     mons = mod.MONITORS
+    observing = observer is not None
     for name, case in mod.cases(ctx):
+        if observer is not None:
+            # the observer costs ~6x on the instrumented functions: watch the first cases of every monitor only
+            # (directed cases are generated first), then switch it off for that monitor
+            want = ctx.monitor_evals.get(name, 0) < OBSERVE_QUOTA
+            if want != observing:
+                (observer.resume if want else observer.pause)()
+                observing = want
         if only and name not in only:
             continue
         fn = mons[name]
@@ -216,6 +227,7 @@ def merge(shards):
             elif isinstance(v, list):
                 tot["notes"].setdefault(k, [])
                 tot["notes"][k].extend(v[: max(0, 8 - len(tot["notes"][k]))])
+
             else:
                 tot["notes"].setdefault(k, v)
     return tot
